@@ -208,6 +208,48 @@ func c02IsCallTo(in ssa.Instruction, name string) bool {
 	return ok && CalleeName(call) == name
 }
 
+// c02MustAliases: the values that denote v on every execution — v, its
+// representation wrappers, and the loads of a local variable that only the
+// store of v reaches (no phi, no variable a closure writes).  Used wherever an
+// edge is taken as proof ("the nil edge of this call's error").
+func c02MustAliases(v ssa.Value) map[ssa.Value]bool {
+	out := map[ssa.Value]bool{v: true}
+	work := []ssa.Value{v}
+	for len(work) > 0 {
+		x := work[len(work)-1]
+		work = work[:len(work)-1]
+		refs := x.Referrers()
+		if refs == nil {
+			continue
+		}
+		for _, r := range *refs {
+			switch u := r.(type) {
+			case *ssa.Store:
+				a, ok := u.Addr.(*ssa.Alloc)
+				if u.Val != x || !ok || len(closureWriters(a)) > 0 {
+					continue
+				}
+				for _, lr := range *a.Referrers() {
+					ld, ok := lr.(*ssa.UnOp)
+					if !ok || ld.Op != token.MUL || out[ld] {
+						continue
+					}
+					if rs := ReachingStores(a, ld); len(rs) == 1 && rs[0] == u {
+						out[ld] = true
+						work = append(work, ld)
+					}
+				}
+			case *ssa.ChangeType, *ssa.ChangeInterface, *ssa.MakeInterface:
+				if val := r.(ssa.Value); !out[val] {
+					out[val] = true
+					work = append(work, val)
+				}
+			}
+		}
+	}
+	return out
+}
+
 // ---------- loops over a slice ----------
 
 type c02SliceLoop struct {
@@ -532,7 +574,7 @@ func c02ElemWait(c *Ctx, sc *c02Scope, elem map[ssa.Value]bool, pushes []ssa.Cal
 				// only the nil result of the helper continues
 				var nilE []Edge
 				if e := ErrOf(call); e != nil {
-					nilE, _, _ = NilTests(T, Aliases(e))
+					nilE, _, _ = NilTests(T, c02MustAliases(e))
 				}
 				ct := newCut().Edges(nilE...)
 				ok := len(nilE) > 0 && !sc.next(sc.startB, 0, ct)
@@ -659,6 +701,7 @@ type c02WaitSite struct {
 	At    ssa.Instruction // loop header's first instruction, or the helper call
 	Edges []Edge          // taken only when all elements have been waited for
 	Instr ssa.Instruction // (helper without error result) executed => waited
+	Err   ssa.Value       // (helper with error result) its error: nil => waited
 	Loop  *Loop
 }
 
@@ -770,7 +813,8 @@ func c02SliceWaits(c *Ctx, fn *ssa.Function, S ssa.Value, needDispatch bool, pus
 	if depth >= 3 {
 		return sites
 	}
-	// helpers that receive the slice and wait for all of it
+	// helpers that receive the slice (as an argument, or a local closure that
+	// captured it) and wait for all of it
 	for _, call := range Calls(fn, func(string) bool { return true }) {
 		if _, isDefer := call.(*ssa.Defer); isDefer {
 			continue
@@ -779,35 +823,33 @@ func c02SliceWaits(c *Ctx, fn *ssa.Function, S ssa.Value, needDispatch bool, pus
 		if g == nil || g == fn || !c02ReachesTryCommit(g) {
 			continue
 		}
-		for i, a := range call.Common().Args {
-			prm := c02ArgParam(g, off, i)
-			if prm == nil || !c02IsSlice(a) || !SameValue(a, S) {
-				continue
-			}
-			in := call.(ssa.Instruction)
-			inner := needDispatch
-			if needDispatch {
-				var others []ssa.CallInstruction
-				for _, d := range disp {
-					if d != call {
-						others = append(others, d)
-					}
-				}
-				if len(others) > 0 && MustPass(in, newCut().Calls(others)) {
-					inner = false
-					c.OK(R1, tn+"|dispatch-before-wait", call.Pos(), "syncutil.Go(successors...) precedes the call of the wait helper "+FnName(g)+" on every path")
-				}
-			}
-			c02SliceSummary(c, g, prm, inner, depth+1)
-			site := c02WaitSite{At: in}
-			if e := ErrOf(call); e != nil {
-				site.Edges, _, _ = NilTests(fn, Aliases(e))
-			} else if ErrResultIndex(g.Signature) < 0 {
-				site.Instr = in
-			}
-			sites = append(sites, site)
-			break
+		Ps := c02SliceInCallee(fn, call, g, off, S)
+		if len(Ps) == 0 {
+			continue
 		}
+		in := call.(ssa.Instruction)
+		inner := needDispatch
+		if needDispatch {
+			var others []ssa.CallInstruction
+			for _, d := range disp {
+				if d != call {
+					others = append(others, d)
+				}
+			}
+			if len(others) > 0 && MustPass(in, newCut().Calls(others)) {
+				inner = false
+				c.OK(R1, tn+"|dispatch-before-wait", call.Pos(), "syncutil.Go(successors...) precedes the call of the wait helper "+FnName(g)+" on every path")
+			}
+		}
+		c02SliceSummary(c, g, Ps, inner, depth+1)
+		site := c02WaitSite{At: in}
+		if e := ErrOf(call); e != nil {
+			site.Edges, _, _ = NilTests(fn, c02MustAliases(e))
+			site.Err = e
+		} else if ErrResultIndex(g.Signature) < 0 {
+			site.Instr = in
+		}
+		sites = append(sites, site)
 	}
 	return sites
 }
@@ -834,21 +876,28 @@ func c02ReachesStaticIn(fn *ssa.Function, l *Loop, pred func(in ssa.Instruction)
 }
 
 // c02SliceSummary checks helper g: every nil-able return (and every push
-// effect in g) lies behind "len(P)==0" or a complete wait over parameter P.
-func c02SliceSummary(c *Ctx, g *ssa.Function, P *ssa.Parameter, needDispatch bool, depth int) {
+// effect in g) lies behind "len(P)==0" or a complete wait over P, where P is
+// the slice as g sees it (its parameter, or the loads of the captured variable).
+func c02SliceSummary(c *Ctx, g *ssa.Function, Ps []ssa.Value, needDispatch bool, depth int) {
 	const R1 = "C02.R1.wait-before-push"
 	gn := FnName(g)
 	except := map[ssa.Instruction]bool{}
-	for _, d := range c02DispatchCalls(g, P, 0) {
-		except[d.(ssa.Instruction)] = true
+	for _, P := range Ps {
+		for _, d := range c02DispatchCalls(g, P, 0) {
+			except[d.(ssa.Instruction)] = true
+		}
 	}
 	pushes := c02Pushes(g, except)
-	sites := c02SliceWaits(c, g, P, needDispatch, pushes, depth)
+	var sites []c02WaitSite
+	ct := newCut()
+	for _, P := range Ps {
+		sites = append(sites, c02SliceWaits(c, g, P, needDispatch, pushes, depth)...)
+		ct.Edges(lenZeroEdges(g, P)...)
+	}
 	if len(sites) == 0 {
 		c.Violation(R1, gn+"|wait-loop", g.Pos(), "the helper receives the dispatched successors but has no loop over them that waits")
 		return
 	}
-	ct := newCut().Edges(lenZeroEdges(g, P)...)
 	for _, s := range sites {
 		ct.Edges(s.Edges...)
 		ct.Instr(s.Instr)
@@ -876,6 +925,48 @@ func c02SliceSummary(c *Ctx, g *ssa.Function, P *ssa.Parameter, needDispatch boo
 		c.Check(R1, gn+"|push:"+CalleeName(p), p.Pos(), okp,
 			ifelse(okp, "every path to the push takes the len(successors)==0 edge or a completed wait", "a push effect in the wait helper is reachable before the wait completed"))
 	}
+}
+
+// c02SliceInCallee: how callee g of `call` (in fn) sees the slice S of fn: as
+// the parameter receiving it, or — for a local closure — as the loads of the
+// captured variable that holds S when the call is made.
+func c02SliceInCallee(fn *ssa.Function, call ssa.CallInstruction, g *ssa.Function, off int, S ssa.Value) []ssa.Value {
+	for i, a := range call.Common().Args {
+		if prm := c02ArgParam(g, off, i); prm != nil && c02IsSlice(a) && SameValue(a, S) {
+			return []ssa.Value{prm}
+		}
+	}
+	if g.Parent() != fn {
+		return nil
+	}
+	var out []ssa.Value
+	for _, r := range Roots(call.Common().Value) {
+		mc, ok := r.(*ssa.MakeClosure)
+		if !ok || mc.Fn != g {
+			continue
+		}
+		for i, bnd := range mc.Bindings {
+			a, ok := bnd.(*ssa.Alloc)
+			if !ok || !c02IsSliceType(a.Type().(*types.Pointer).Elem()) || freeVarWritten(g, g.FreeVars[i]) {
+				continue
+			}
+			rs := ReachingStores(a, call.(ssa.Instruction))
+			if len(rs) != 1 || rs[0] == nil || !SameValue(rs[0].Val, S) {
+				continue
+			}
+			for _, ref := range *g.FreeVars[i].Referrers() {
+				if ld, ok := ref.(*ssa.UnOp); ok && ld.Op == token.MUL {
+					out = append(out, ld)
+				}
+			}
+		}
+	}
+	return out
+}
+
+func c02IsSliceType(t types.Type) bool {
+	_, ok := t.Underlying().(*types.Slice)
+	return ok
 }
 
 // c02UnknownWaitLoop: a loop of fn that looks at the tracker but is not a
@@ -927,11 +1018,157 @@ func c02MapsError(g *ssa.Function, p *ssa.Parameter, tolerated []string) (bool, 
 	return true, ""
 }
 
+// c02NilReturnAfterFailure is findNilReturnFrom with one path fact: walking
+// from the non-nil edge `from` of a test of `tested`, the tested value — and,
+// when it was loaded from a local error variable, that variable until it is
+// assigned again — is known non-nil, so later tests of it (`if err == nil {
+// next step }` chains, a phi selected by the edge taken) follow only their
+// non-nil edge, and a return of it is a non-nil return.
+func c02NilReturnAfterFailure(fn *ssa.Function, from Edge, tested ssa.Value, errIdx int, ct *cut, aliases map[ssa.Value]bool) *RetAtom {
+	var A *ssa.Alloc
+	if a := cellOf(tested); a != nil && len(closureWriters(a)) == 0 {
+		A = a
+	}
+	type state struct {
+		b, pred *ssa.BasicBlock
+		holds   bool
+	}
+	visited := map[state]bool{}
+	var bad *RetAtom
+	nonNilVal := func(v ssa.Value) bool {
+		return aliases[v] || aliases[strip(v)] || ErrNilStatus(v, 0) == NonNil || derivesFromAny(v, aliases, 0)
+	}
+	var walk func(b, pred *ssa.BasicBlock, holds bool)
+	walk = func(b, pred *ssa.BasicBlock, holds bool) {
+		if bad != nil {
+			return
+		}
+		st := state{b, pred, holds}
+		if visited[st] {
+			return
+		}
+		visited[st] = true
+		known := map[ssa.Value]bool{} // values known non-nil in this block on this path
+		if holds {
+			known[tested] = true
+		}
+		exact := func(v ssa.Value) bool {
+			if known[v] {
+				return true
+			}
+			if phi, ok := v.(*ssa.Phi); ok && phi.Block() == b && pred != nil {
+				for i, p := range b.Preds {
+					if p == pred {
+						e := phi.Edges[i]
+						return known[e] || (holds && e == tested)
+					}
+				}
+			}
+			return false
+		}
+		for _, in := range b.Instrs {
+			if ct.instrs[in] {
+				return
+			}
+			switch x := in.(type) {
+			case *ssa.Store:
+				if A != nil && x.Addr == A {
+					holds = nonNilVal(x.Val) || known[x.Val]
+				}
+			case *ssa.UnOp:
+				if A != nil && x.Op == token.MUL && x.X == A && holds {
+					known[x] = true
+				}
+			case *ssa.Return:
+				v := x.Results[errIdx]
+				if exact(v) {
+					return
+				}
+				for _, val := range resolveAt(v, b, pred, x, aliases) {
+					if nonNilVal(val) || known[val] {
+						continue
+					}
+					bad = &RetAtom{Ret: x, Val: val}
+					return
+				}
+				return
+			case *ssa.If:
+				cond, t, f := ifEdges(x)
+				if bo, ok := cond.(*ssa.BinOp); ok && (bo.Op == token.EQL || bo.Op == token.NEQ) {
+					var v ssa.Value
+					if isNilConst(bo.Y) {
+						v = bo.X
+					} else if isNilConst(bo.X) {
+						v = bo.Y
+					}
+					if v != nil && exact(v) {
+						nn := t // edge taken when v != nil
+						if bo.Op == token.EQL {
+							nn = f
+						}
+						if !ct.edges[nn] {
+							walk(nn.To, b, holds)
+						}
+						return
+					}
+				}
+			}
+		}
+		for _, sc := range b.Succs {
+			if ct.edges[Edge{b, sc}] {
+				continue
+			}
+			walk(sc, b, holds)
+		}
+	}
+	walk(from.To, from.From, true)
+	return bad
+}
+
+// c02ErrFlowCore is a copy of ErrFlow (errflow.go) that explores the failure
+// paths with c02NilReturnAfterFailure instead of findNilReturnFrom.
+func c02ErrFlowCore(c ssa.CallInstruction, o ErrFlowOpts) ErrFlowResult {
+	fn := c.Parent()
+	errIdx := ErrResultIndex(fn.Signature)
+	e := ErrOf(c)
+	if _, isDefer := c.(*ssa.Defer); isDefer || e == nil || errIdx < 0 {
+		return ErrFlow(c, o)
+	}
+	aliases := Aliases(e)
+	_, nonNilE, ifs := NilTests(fn, aliases)
+	if len(ifs) == 0 {
+		return ErrFlow(c, o)
+	}
+	tolE := toleratedEdges(fn, aliases, o.Tolerated)
+	cutTol := newCut().Edges(tolE...)
+	cutTol.Instr(c.(ssa.Instruction))
+	for i, ne := range nonNilE {
+		var tested ssa.Value
+		if bo, ok := func() (*ssa.BinOp, bool) { cnd, _, _ := ifEdges(ifs[i]); b, ok := cnd.(*ssa.BinOp); return b, ok }(); ok {
+			if aliases[bo.X] {
+				tested = bo.X
+			} else {
+				tested = bo.Y
+			}
+		}
+		if bad := c02NilReturnAfterFailure(fn, ne, tested, errIdx, cutTol, aliases); bad != nil {
+			return ErrFlowResult{OK: false, At: bad.Ret.Pos(),
+				Detail: fmt.Sprintf("after the error of %s is found non-nil (edge %s) a path reaches the return at %s whose error result is %s",
+					CalleeName(c), ne, posLine(fn, bad.Ret.Pos()), describe(bad.Val))}
+		}
+	}
+	how := "tested; every failure path returns a non-nil error"
+	if len(tolE) > 0 {
+		how += fmt.Sprintf(" (tolerated: %v)", o.Tolerated)
+	}
+	return ErrFlowResult{OK: true, How: how}
+}
+
 // c02ErrFlow is ErrFlow, extended: an error that is neither tested nor
 // returned but handed to an in-module helper which maps it faithfully is
 // analysed through the helper (the helper's result must then surface).
 func c02ErrFlow(call ssa.CallInstruction, o ErrFlowOpts, depth int) ErrFlowResult {
-	r := ErrFlow(call, o)
+	r := c02ErrFlowCore(call, o)
 	if r.OK || depth > 2 {
 		return r
 	}
@@ -1195,20 +1432,6 @@ func (pa *c02PermitAnalysis) run(fn *ssa.Function, k int, entry c02Permit, depth
 	R := Aliases(fn.Params[k])
 	isRegion := func(v ssa.Value) bool { return c02RootedIn(v, R) }
 
-	// overrides[e][call] = state on edge e when the last transition was `call`
-	// (the nil edge of a Start / of a callee that received the region)
-	overrides := map[Edge]map[ssa.Instruction]int8{}
-	setOverride := func(call ssa.CallInstruction, s int8) {
-		if e := ErrOf(call); e != nil {
-			ne, _, _ := NilTests(fn, Aliases(e))
-			for _, ed := range ne {
-				if overrides[ed] == nil {
-					overrides[ed] = map[ssa.Instruction]int8{}
-				}
-				overrides[ed][call.(ssa.Instruction)] = s
-			}
-		}
-	}
 	effects := map[ssa.Instruction]bool{}
 	for _, p := range storageEffects(fn) {
 		effects[p.(ssa.Instruction)] = true
@@ -1261,91 +1484,105 @@ func (pa *c02PermitAnalysis) run(fn *ssa.Function, k int, entry c02Permit, depth
 		return kNone, nil, 0
 	}
 
-	in := map[*ssa.BasicBlock]c02Permit{}
-	out := map[*ssa.BasicBlock]c02Permit{}
 	passSummary := map[ssa.Instruction]c02PermitSummary{}
-	transfer := func(b *ssa.BasicBlock, st c02Permit, report bool) c02Permit {
-		for _, ins := range b.Instrs {
-			kd, g, gi := classify(ins)
-			switch kd {
-			case kBlock:
-				if report {
-					ok := st.s == c02Released
-					c.Check(R4, tn+"|released-at:"+instrLabel(ins), ins.Pos(), ok,
-						ifelse(ok, "the permit is released (region.End(), no Start since) on every path to this blocking operation",
-							"the limiter permit may still be held at this blocking operation (with Concurrency=1 the copy deadlocks); state: "+c02StateName(st.s)))
-				}
-			case kEffect:
-				if report && st.touched {
-					ok := st.s == c02Held
-					c.Check(R4, tn+"|held-at:"+instrLabel(ins), ins.Pos(), ok,
-						ifelse(ok, "the permit is held (a successful region.Start() after every region.End()) at this storage effect",
-							"storage effect reachable after region.End() without re-acquiring the permit (concurrency bound exceeded); state: "+c02StateName(st.s)))
-				}
-			case kEnd:
-				st = c02Permit{s: c02Released, last: ins, touched: true}
-			case kStart:
-				st = c02Permit{s: st.s, last: ins, touched: true}
-				if !report {
-					setOverride(ins.(ssa.CallInstruction), c02Held)
-				}
-			case kPass:
-				var sum c02PermitSummary
-				if report {
-					sum = passSummary[ins]
-				} else {
-					sum = pa.run(g, gi, c02Permit{s: st.s, touched: st.touched}, depth+1)
-					passSummary[ins] = sum
-					setOverride(ins.(ssa.CallInstruction), sum.exitNil)
-				}
-				st = c02Permit{s: sum.exitAny, last: ins, touched: true}
-				if ErrResultIndex(g.Signature) < 0 {
-					st.s = sum.exitNil
-				}
-			}
+	seenAt := map[ssa.Instruction]map[int8]bool{} // permit states reaching a blocker / storage effect
+	var order []ssa.Instruction
+	sum := c02PermitSummary{}
+	errIdx := ErrResultIndex(fn.Signature)
+	// nilMeans: the state when the error of the last transition (a Start, a
+	// callee that received the region) turns out nil
+	nilMeans := func(u c02Permit, v ssa.Value) (int8, bool) {
+		lc, ok := u.last.(ssa.CallInstruction)
+		if !ok || v == nil {
+			return 0, false
 		}
-		return st
+		if e := ErrOf(lc); e == nil || (e != v && e != strip(v)) {
+			return 0, false
+		}
+		if CalleeName(lc) == nStart {
+			return c02Held, true
+		}
+		if ps, ok := passSummary[u.last]; ok {
+			return ps.exitNil, true
+		}
+		return 0, false
 	}
-	edgeState := func(p, b *ssa.BasicBlock) c02Permit {
-		st := out[p]
-		if st.s == c02Bot {
-			return st
-		}
-		if st.last != nil {
-			if s, ok := overrides[Edge{p, b}][st.last]; ok {
-				return c02Permit{s: s, last: st.last, touched: true}
+	ex := newC02Explorer(fn)
+	ex.instr = func(ins ssa.Instruction, env *c02Env) bool {
+		st := &env.user
+		kd, g, gi := classify(ins)
+		switch kd {
+		case kBlock, kEffect:
+			if kd == kEffect && !st.touched {
+				break
+			}
+			if seenAt[ins] == nil {
+				seenAt[ins] = map[int8]bool{}
+				order = append(order, ins)
+			}
+			seenAt[ins][st.s] = true
+		case kEnd:
+			*st = c02Permit{s: c02Released, last: ins, touched: true}
+		case kStart:
+			*st = c02Permit{s: st.s, last: ins, touched: true}
+		case kPass:
+			ps := pa.run(g, gi, c02Permit{s: st.s, touched: st.touched}, depth+1)
+			passSummary[ins] = ps
+			*st = c02Permit{s: ps.exitAny, last: ins, touched: true}
+			if ErrResultIndex(g.Signature) < 0 {
+				st.s = ps.exitNil
 			}
 		}
-		return st
+		if r, ok := ins.(*ssa.Return); ok {
+			sum.exitAny = c02Join(c02Permit{s: sum.exitAny}, c02Permit{s: st.s}).s
+			s, nilable := st.s, true
+			if errIdx >= 0 {
+				v := r.Results[errIdx]
+				switch ex.nilness(v, env) {
+				case 2:
+					nilable = false
+				case 0:
+					if ns, ok := nilMeans(*st, ex.res(v, env)); ok {
+						s = ns
+					}
+				}
+			}
+			if nilable {
+				sum.exitNil = c02Join(c02Permit{s: sum.exitNil}, c02Permit{s: s}).s
+			}
+		}
+		return true
 	}
-	// fixpoint (the summaries of callees depend on the entry state, so iterate
-	// with memoised callee runs; the lattice has height 3)
-	for iter := 0; iter < 50; iter++ {
-		changed := false
-		for _, b := range fn.Blocks {
-			var st c02Permit
-			if b == fn.Blocks[0] {
-				st = entry
-			}
-			for _, p := range b.Preds {
-				st = c02Join(st, edgeState(p, b))
-			}
-			if st.s == c02Bot {
-				continue
-			}
-			o := transfer(b, st, false)
-			if in[b] != st || out[b] != o {
-				in[b], out[b] = st, o
-				changed = true
+	ex.edge = func(e Edge, tested ssa.Value, isNil bool, env *c02Env) bool {
+		if tested != nil && isNil {
+			if ns, ok := nilMeans(env.user, tested); ok {
+				env.user.s = ns
 			}
 		}
-		if !changed {
-			break
-		}
+		return true
 	}
-	for _, b := range fn.Blocks {
-		if in[b].s != c02Bot {
-			transfer(b, in[b], true)
+	ex.run(entry)
+	if ex.exceeded {
+		c.Undecided(R4, tn+"|path-budget", fn.Pos(), "too many distinct paths to follow the permit state")
+	}
+	for _, ins := range order {
+		states := seenAt[ins]
+		var names []string
+		for _, s := range []int8{c02Held, c02Released, c02Mixed} {
+			if states[s] {
+				names = append(names, c02StateName(s))
+			}
+		}
+		if kd, _, _ := classify(ins); kd == kBlock {
+			ok := len(states) == 1 && states[c02Released]
+			c.Check(R4, tn+"|released-at:"+instrLabel(ins), ins.Pos(), ok,
+				ifelse(ok, "the permit is released (region.End(), no Start since) on every path to this blocking operation",
+					"the limiter permit may still be held at this blocking operation (with Concurrency=1 the copy deadlocks); state: "+strings.Join(names, " / ")))
+		} else {
+			ok := len(states) == 1 && states[c02Held]
+			c.Check(R4, tn+"|held-at:"+instrLabel(ins), ins.Pos(), ok,
+				ifelse(ok, "the permit is held (a successful region.Start() after every region.End()) at this storage effect",
+					"storage effect reachable after region.End() without re-acquiring the permit (concurrency bound exceeded); state: "+strings.Join(names, " / ")))
 		}
 	}
 	// a closure that captures the region and ends/starts it is out of reach
@@ -1368,50 +1605,8 @@ func (pa *c02PermitAnalysis) run(fn *ssa.Function, k int, entry c02Permit, depth
 			}
 		}
 	})
-	// exit states
-	sum := c02PermitSummary{}
-	retState := map[*ssa.Return]c02Permit{}
-	for _, r := range Returns(fn) {
-		if in[r.Block()].s != c02Bot {
-			retState[r] = out[r.Block()]
-			sum.exitAny = c02Join(c02Permit{s: sum.exitAny}, out[r.Block()]).s
-		}
-	}
-	errIdx := ErrResultIndex(fn.Signature)
-	if errIdx < 0 {
+	if sum.exitNil == c02Bot {
 		sum.exitNil = sum.exitAny
-	} else {
-		acc := c02Permit{}
-		for _, a := range c02NilableAtoms(fn) {
-			st, ok := retState[a.Ret]
-			if !ok {
-				continue
-			}
-			if len(a.Edges) > 0 {
-				e := a.Edges[len(a.Edges)-1]
-				if es := edgeState(e.From, e.To); es.s != c02Bot {
-					st = es
-				}
-			}
-			// the returned value is the error of a Start / of a callee that
-			// received the region: nil means that call succeeded
-			if st.last != nil {
-				if lc, ok := st.last.(ssa.CallInstruction); ok {
-					if e := ErrOf(lc); e != nil && (Aliases(e)[a.Val] || Aliases(e)[strip(a.Val)]) {
-						if CalleeName(lc) == nStart {
-							st.s = c02Held
-						} else if ps, ok := passSummary[st.last]; ok {
-							st.s = ps.exitNil
-						}
-					}
-				}
-			}
-			acc = c02Join(acc, st)
-		}
-		sum.exitNil = acc.s
-		if sum.exitNil == c02Bot {
-			sum.exitNil = sum.exitAny
-		}
 	}
 	pa.memo[key] = sum
 	return sum
@@ -1502,4 +1697,380 @@ func c02TaskCalls(f *ssa.Function, chain []ssa.CallInstruction, depth int) []c02
 		}
 	}
 	return out
+}
+
+// c02DispatchBody: the function in which fn's node dispatches its successors:
+// fn itself, or the unique in-module function it statically calls (to the
+// given depth) that does.
+func c02DispatchBody(fn *ssa.Function, depth int) *ssa.Function {
+	if len(c02DispatchedSlices(fn)) > 0 {
+		return fn
+	}
+	if depth == 0 {
+		return nil
+	}
+	var found []*ssa.Function
+	for _, call := range Calls(fn, func(string) bool { return true }) {
+		if _, isDefer := call.(*ssa.Defer); isDefer {
+			continue
+		}
+		g, _ := c02CalleeOf(call)
+		if g == nil || g == fn {
+			continue
+		}
+		if b := c02DispatchBody(g, depth-1); b != nil {
+			dup := false
+			for _, f := range found {
+				if f == b {
+					dup = true
+				}
+			}
+			if !dup {
+				found = append(found, b)
+			}
+		}
+	}
+	if len(found) == 1 {
+		return found[0]
+	}
+	return nil
+}
+
+// ---------- feasible-path exploration ----------
+
+// c02Env is what is known on the path being explored: the nil-ness of
+// error-typed SSA values established by the branches taken, and the current
+// content of the function's local error variables.
+type c02Env struct {
+	nilOf   map[ssa.Value]int8       // 1 nil, 2 non-nil
+	alias   map[ssa.Value]ssa.Value  // load of an error variable / phi -> the value it denotes on this path
+	holder  map[*ssa.Alloc]ssa.Value // current content of a tracked error variable (nil: unknown)
+	cellNil map[*ssa.Alloc]int8
+	user    c02Permit
+}
+
+func (e *c02Env) clone() *c02Env {
+	n := &c02Env{nilOf: map[ssa.Value]int8{}, alias: map[ssa.Value]ssa.Value{}, holder: map[*ssa.Alloc]ssa.Value{}, cellNil: map[*ssa.Alloc]int8{}, user: e.user}
+	for k, v := range e.nilOf {
+		n.nilOf[k] = v
+	}
+	for k, v := range e.alias {
+		n.alias[k] = v
+	}
+	for k, v := range e.holder {
+		n.holder[k] = v
+	}
+	for k, v := range e.cellNil {
+		n.cellNil[k] = v
+	}
+	return n
+}
+
+// c02Explorer walks the feasible paths of fn from its entry: a branch on
+// `v == nil` whose outcome is already known on the path (v was tested before,
+// v is the error variable that still holds a value tested before, v is a phi
+// selected by the edge taken) follows only the feasible edge.
+type c02Explorer struct {
+	fn       *ssa.Function
+	tracked  map[*ssa.Alloc]bool
+	ids      map[any]int
+	visited  map[string]bool
+	budget   int
+	exceeded bool
+	instr    func(in ssa.Instruction, env *c02Env) bool
+	edge     func(e Edge, tested ssa.Value, isNil bool, env *c02Env) bool
+}
+
+func newC02Explorer(fn *ssa.Function) *c02Explorer {
+	ex := &c02Explorer{fn: fn, tracked: map[*ssa.Alloc]bool{}, ids: map[any]int{}, visited: map[string]bool{}, budget: 20000}
+	AllInstrs(fn, func(in ssa.Instruction) {
+		if a, ok := in.(*ssa.Alloc); ok && isErrorType(a.Type().(*types.Pointer).Elem()) && len(closureWriters(a)) == 0 {
+			onlyCell := true
+			for _, r := range *a.Referrers() {
+				switch u := r.(type) {
+				case *ssa.Store:
+					if u.Addr != a {
+						onlyCell = false
+					}
+				case *ssa.UnOp, *ssa.MakeClosure, *ssa.DebugRef:
+				default:
+					onlyCell = false // address escapes
+				}
+			}
+			if onlyCell {
+				ex.tracked[a] = true
+			}
+		}
+	})
+	return ex
+}
+
+func (ex *c02Explorer) id(x any) int {
+	if n, ok := ex.ids[x]; ok {
+		return n
+	}
+	n := len(ex.ids) + 1
+	ex.ids[x] = n
+	return n
+}
+
+// res: the value v denotes on this path (through wrappers, loads of error
+// variables and phis resolved when their block was entered).
+func (ex *c02Explorer) res(v ssa.Value, env *c02Env) ssa.Value {
+	for i := 0; i < 8 && v != nil; i++ {
+		v = strip(v)
+		a, ok := env.alias[v]
+		if !ok || a == nil {
+			break
+		}
+		v = a
+	}
+	return v
+}
+
+func (ex *c02Explorer) nilness(v ssa.Value, env *c02Env) int8 {
+	if n := env.nilOf[v]; n != 0 {
+		return n
+	}
+	r := ex.res(v, env)
+	if r == nil {
+		return 0
+	}
+	if n := env.nilOf[r]; n != 0 {
+		return n
+	}
+	switch ErrNilStatus(r, 0) {
+	case IsNil:
+		return 1
+	case NonNil:
+		return 2
+	}
+	return 0
+}
+
+func (ex *c02Explorer) key(b, pred *ssa.BasicBlock, env *c02Env) string {
+	var parts []string
+	for k, v := range env.nilOf {
+		parts = append(parts, fmt.Sprintf("n%d=%d", ex.id(k), v))
+	}
+	for k, v := range env.alias {
+		parts = append(parts, fmt.Sprintf("a%d=%d", ex.id(k), ex.id(v)))
+	}
+	for k, v := range env.holder {
+		parts = append(parts, fmt.Sprintf("h%d=%d", ex.id(k), ex.id(v)))
+	}
+	for k, v := range env.cellNil {
+		parts = append(parts, fmt.Sprintf("c%d=%d", ex.id(k), v))
+	}
+	sortStrings(parts)
+	pi := -1
+	if pred != nil {
+		pi = pred.Index
+	}
+	return fmt.Sprintf("%d<%d|%d,%d,%v|%s", b.Index, pi, env.user.s, ex.id(env.user.last), env.user.touched, strings.Join(parts, ","))
+}
+
+func sortStrings(a []string) {
+	for i := 1; i < len(a); i++ {
+		for j := i; j > 0 && a[j] < a[j-1]; j-- {
+			a[j], a[j-1] = a[j-1], a[j]
+		}
+	}
+}
+
+func (ex *c02Explorer) run(user c02Permit) {
+	env := &c02Env{nilOf: map[ssa.Value]int8{}, alias: map[ssa.Value]ssa.Value{}, holder: map[*ssa.Alloc]ssa.Value{}, cellNil: map[*ssa.Alloc]int8{}, user: user}
+	ex.walk(ex.fn.Blocks[0], nil, env)
+}
+
+// forget drops what was known about a value that is being (re)defined.
+func (ex *c02Explorer) forget(v ssa.Value, env *c02Env) {
+	delete(env.nilOf, v)
+	delete(env.alias, v)
+	for a, h := range env.holder {
+		if h == v {
+			env.holder[a] = nil
+		}
+	}
+	for k, h := range env.alias {
+		if h == v {
+			delete(env.alias, k)
+		}
+	}
+}
+
+func (ex *c02Explorer) walk(b, pred *ssa.BasicBlock, env *c02Env) {
+	if ex.exceeded {
+		return
+	}
+	// phis of this block denote the value coming in over the edge taken
+	type phiVal struct {
+		phi *ssa.Phi
+		v   ssa.Value
+		n   int8
+	}
+	var phis []phiVal
+	if pred != nil {
+		for _, in := range b.Instrs {
+			phi, ok := in.(*ssa.Phi)
+			if !ok {
+				break
+			}
+			if !isErrorType(phi.Type()) {
+				continue
+			}
+			for i, p := range b.Preds {
+				if p == pred {
+					phis = append(phis, phiVal{phi, ex.res(phi.Edges[i], env), ex.nilness(phi.Edges[i], env)})
+				}
+			}
+		}
+	}
+	for _, pv := range phis {
+		ex.forget(pv.phi, env)
+	}
+	for _, pv := range phis {
+		if pv.v != nil && pv.v != ssa.Value(pv.phi) {
+			env.alias[pv.phi] = pv.v
+		}
+		if pv.n != 0 {
+			env.nilOf[pv.phi] = pv.n
+		}
+	}
+	k := ex.key(b, pred, env)
+	if ex.visited[k] {
+		return
+	}
+	ex.visited[k] = true
+	ex.budget--
+	if ex.budget < 0 {
+		ex.exceeded = true
+		return
+	}
+	take := func(e Edge, tested ssa.Value, isNil bool, env *c02Env) {
+		if ex.edge != nil && !ex.edge(e, tested, isNil, env) {
+			return
+		}
+		ex.walk(e.To, e.From, env)
+	}
+	for _, in := range b.Instrs {
+		if _, isPhi := in.(*ssa.Phi); isPhi {
+			continue
+		}
+		if v, ok := in.(ssa.Value); ok && isErrorTypeOrTuple(v.Type()) {
+			ex.forget(v, env)
+		}
+		switch x := in.(type) {
+		case *ssa.Alloc:
+			if ex.tracked[x] {
+				env.holder[x] = nil
+				env.cellNil[x] = 1
+			}
+		case *ssa.Store:
+			if a, ok := x.Addr.(*ssa.Alloc); ok && ex.tracked[a] {
+				env.holder[a] = ex.res(x.Val, env)
+				env.cellNil[a] = ex.nilness(x.Val, env)
+			}
+		case *ssa.UnOp:
+			if a, ok := x.X.(*ssa.Alloc); ok && x.Op == token.MUL && ex.tracked[a] {
+				if h := env.holder[a]; h != nil {
+					env.alias[x] = h
+				}
+				if n := env.cellNil[a]; n != 0 {
+					env.nilOf[x] = n
+				}
+			}
+		}
+		if ex.instr != nil && !ex.instr(in, env) {
+			return
+		}
+		switch x := in.(type) {
+		case *ssa.Return, *ssa.Panic:
+			return
+		case *ssa.If:
+			cond, t, f := ifEdges(x)
+			if bo, ok := cond.(*ssa.BinOp); ok && (bo.Op == token.EQL || bo.Op == token.NEQ) {
+				var v ssa.Value
+				if isNilConst(bo.Y) {
+					v = bo.X
+				} else if isNilConst(bo.X) {
+					v = bo.Y
+				}
+				if v != nil && isErrorType(v.Type()) {
+					nilE, nonNilE := t, f
+					if bo.Op == token.NEQ {
+						nilE, nonNilE = f, t
+					}
+					r := ex.res(v, env)
+					n := ex.nilness(v, env)
+					for _, br := range []struct {
+						e Edge
+						n int8
+					}{{nilE, 1}, {nonNilE, 2}} {
+						if n != 0 && n != br.n {
+							continue // infeasible on this path
+						}
+						ne := env.clone()
+						ne.nilOf[v] = br.n
+						if r != nil {
+							ne.nilOf[r] = br.n
+							for a, h := range ne.holder {
+								if h == r {
+									ne.cellNil[a] = br.n
+								}
+							}
+						}
+						take(br.e, r, br.n == 1, ne)
+					}
+					return
+				}
+			}
+			take(t, nil, false, env.clone())
+			take(f, nil, false, env.clone())
+			return
+		}
+	}
+	for _, sc := range b.Succs {
+		take(Edge{b, sc}, nil, false, env.clone())
+	}
+}
+
+func isErrorTypeOrTuple(t types.Type) bool {
+	if isErrorType(t) {
+		return true
+	}
+	if tup, ok := t.(*types.Tuple); ok {
+		for i := 0; i < tup.Len(); i++ {
+			if isErrorType(tup.At(i).Type()) {
+				return true
+			}
+		}
+	}
+	return false
+}
+
+// c02MustPassPS: every feasible path from the entry of fn to target takes a
+// static cut edge / executes a cut instruction, or takes the nil edge of a test
+// of one of the error values in okErrs (the error result of a completed wait).
+func c02MustPassPS(fn *ssa.Function, target ssa.Instruction, ct *cut, okErrs map[ssa.Value]bool) (must bool, exceeded bool) {
+	ex := newC02Explorer(fn)
+	found := false
+	ex.instr = func(in ssa.Instruction, env *c02Env) bool {
+		if in == target {
+			found = true
+			return false
+		}
+		return !found && !ct.instrs[in]
+	}
+	ex.edge = func(e Edge, tested ssa.Value, isNil bool, env *c02Env) bool {
+		if found || ct.edges[e] {
+			return false
+		}
+		if tested != nil && isNil && (okErrs[tested] || okErrs[strip(tested)]) {
+			return false
+		}
+		return true
+	}
+	ex.run(c02Permit{})
+	return !found, ex.exceeded
 }
